@@ -237,6 +237,7 @@ impl Writer {
         })?;
 
         let mut revert_info = BatchRevertInfo {
+            original_block_id: block.id,
             original_offset: *cur_offset,
             allocated_block_ids: Vec::new(),
         };
@@ -351,10 +352,7 @@ impl Writer {
                     }
                 }
 
-                *cur_offset = revert_info.original_offset;
-                for block_id in revert_info.allocated_block_ids {
-                    FileStateTracker::set_block_unlocked(block_id as usize);
-                }
+                self.rollback_batch(&revert_info, &mut *cur_offset);
                 return Err(e);
             }
         }
@@ -378,6 +376,30 @@ impl Writer {
             self.col
         );
         Ok(())
+    }
+
+    /// Undo the planning of a failed batch. Nothing the batch planned exists any more (its
+    /// headers were zeroed), so the writer resumes where it stood. If planning rotated, the
+    /// blocks it sealed went into the reader chain with `used` covering planned entries: cut
+    /// them back to what was really written, and leave the writer at the start of the last
+    /// block it allocated, which is empty.
+    fn rollback_batch(&self, revert_info: &BatchRevertInfo, cur_offset: &mut u64) {
+        if let Some((_last, intermediate)) = revert_info.allocated_block_ids.split_last() {
+            for block_id in intermediate.iter() {
+                let _ = self.reader.rollback_sealed_block(&self.col, *block_id, 0);
+            }
+            let _ = self.reader.rollback_sealed_block(
+                &self.col,
+                revert_info.original_block_id,
+                revert_info.original_offset,
+            );
+            *cur_offset = 0;
+        } else {
+            *cur_offset = revert_info.original_offset;
+        }
+        for block_id in revert_info.allocated_block_ids.iter() {
+            FileStateTracker::set_block_unlocked(*block_id as usize);
+        }
     }
 
     #[cfg(target_os = "linux")]
@@ -434,10 +456,7 @@ impl Writer {
                 io_uring::types::Fd(fd_backend.file().as_raw_fd())
             } else {
                 // Rollback and fail
-                *cur_offset = revert_info.original_offset;
-                for block_id in revert_info.allocated_block_ids.iter() {
-                    FileStateTracker::set_block_unlocked(*block_id as usize);
-                }
+                self.rollback_batch(revert_info, cur_offset);
                 return Err(std::io::Error::new(
                     std::io::ErrorKind::Unsupported,
                     "batch writes require FD backend",
@@ -539,10 +558,7 @@ impl Writer {
                     }
 
                     // Rollback
-                    *cur_offset = revert_info.original_offset;
-                    for block_id in revert_info.allocated_block_ids.iter() {
-                        FileStateTracker::set_block_unlocked(*block_id as usize);
-                    }
+                    self.rollback_batch(revert_info, cur_offset);
                     return Err(std::io::Error::new(
                         std::io::ErrorKind::Other,
                         "batch write failed, rolled back",
@@ -584,10 +600,7 @@ impl Writer {
                 }
 
                 // Rollback
-                *cur_offset = revert_info.original_offset;
-                for block_id in revert_info.allocated_block_ids.iter() {
-                    FileStateTracker::set_block_unlocked(*block_id as usize);
-                }
+                self.rollback_batch(revert_info, cur_offset);
                 Err(e)
             }
         }
@@ -595,6 +608,7 @@ impl Writer {
 }
 
 struct BatchRevertInfo {
+    original_block_id: u64,
     original_offset: u64,
     allocated_block_ids: Vec<u64>,
 }
